@@ -148,6 +148,20 @@ def culprit0(signal, obj):
         return False
 
 
+SPELLINGS = {}
+
+
+def names_hint(hint_py, plain):
+    """the message names the hint: by its own repr or by the repr of an equal hint seen earlier in this process (typing unions
+    compare as sets, and beartype keeps one checker, hence one message prefix, per class of equal hints)"""
+    try:
+        seen = SPELLINGS.setdefault(hint_py, set())
+    except TypeError:
+        seen = set()
+    seen.add(repr(hint_py))
+    return any(r in plain for r in seen)
+
+
 def run_one(hint, hint_py, value, draw, is_random, entry, strategy='O1', extra=None, details=False):
     spy = U.Spy()
     labels = []
@@ -206,7 +220,7 @@ def run_one(hint, hint_py, value, draw, is_random, entry, strategy='O1', extra=N
             import re as _re
             plain = _re.sub(r'\x1b\[[0-9;]*m', '', str(signal))
             info = {'kind': 'raise', 'cls': type(signal).__name__, 'message': str(signal)[:1500],
-                    'names_hint': repr(hint_py) in plain,
+                    'names_hint': names_hint(hint_py, plain),
                     'culprit0': culprit0(signal, obj),
                     'ran': len(ran)}
     else:
@@ -217,7 +231,7 @@ def run_one(hint, hint_py, value, draw, is_random, entry, strategy='O1', extra=N
                 import re as _re
                 plain = _re.sub(r'\x1b\[[0-9;]*m', '', str(mine[0].message))
                 info = {'kind': 'warn', 'cls': mine[0].category.__name__, 'message': str(mine[0].message)[:1500],
-                        'names_hint': repr(hint_py) in plain,
+                        'names_hint': names_hint(hint_py, plain),
                         'culprit0': None, 'ran': len(ran), 'count': len(mine)}
         else:
             verdict = 'T' if v else 'F'
